@@ -6,6 +6,7 @@ CONSTANTS
   FrameCopy = TRUE
   DetailsFirst = FALSE
   TreeRule = "aabbs"
+  BoxCache = "none"
   MaxCalls = 3
   MaxMoves = 1
   Witness = TRUE
